@@ -245,6 +245,39 @@ theorem C05t_holding_is_maximal (h : HSt) (hr : HReach h) (hh : Holding h)
     simp only [led] at h2
     simp_all [neutral, b2n]) <;> (try (repeat' split at h2) <;> simp_all [b2n]) <;> (try omega) <;> (try grind)
 
+/-- **Exact characterisation of the ends of maximal runs.**  A reachable state is maximal iff it is
+    `Final`, or it is `Holding` with nothing in flight, staged or being destroyed and every live task
+    waiting for its next phase (created and not begun, or switched out inside its body). -/
+theorem C05t_maximal_iff (h : HSt) (hr : HReach h) :
+    Maximal h ↔ Final h ∨ (Holding h ∧ (h.s.creating = 0 ∧ h.s.staged = 0 ∧ h.s.destroying = 0) ∧
+      ∀ o, h.s.live o = true → h.tp o = 0 ∨ h.tp o = 3) := by
+  constructor
+  · intro hm
+    rcases C05t_final_state h hr hm with hf | hh
+    · exact Or.inl hf
+    · refine Or.inr ⟨hh, ?_, ?_⟩
+      · have hall := allInv_of_reach hr
+        have hth := hall.b.thOk (Or.inr (by rw [hh.1]; simp))
+        have hna : 0 < h.s.na := by omega
+        have h1 : ¬ 0 < h.s.creating := fun hx => prog_anon hall.i hall.a hna (Or.inl hx) hm
+        have h2 : ¬ 0 < h.s.staged := fun hx => prog_anon hall.i hall.a hna (Or.inr (Or.inl hx)) hm
+        have h3 : ¬ 0 < h.s.destroying := fun hx => prog_anon hall.i hall.a hna (Or.inr (Or.inr (Or.inl hx))) hm
+        omega
+      · intro o hl
+        have hall := allInv_of_reach hr
+        have hth := hall.b.thOk (Or.inr (by rw [hh.1]; simp))
+        have hna : 0 < h.s.na := by omega
+        have h5 : h.tp o ≠ 5 := fun h5 => prog_anon hall.i hall.a hna (Or.inr (Or.inr (Or.inr ⟨o, hl, h5⟩))) hm
+        have hin : ¬ (h.tp o = 1 ∨ h.tp o = 2 ∨ h.tp o = 4) := by
+          intro hx
+          exact prog_inphase hall.i hall.a (hall.a.tpIn o hl hx) hm
+        have hle := hall.a.tpLe o hl
+        omega
+  · intro hx
+    rcases hx with hf | ⟨hh, h0, htp⟩
+    · exact C05t_final_is_maximal h hr hf
+    · exact C05t_holding_is_maximal h hr hh h0 htp
+
 /-! ## Non-vacuity -/
 
 /-- one incarnation with one worker: a task that spawns a child, a suspension during which a task is
